@@ -25,7 +25,7 @@ def model_stream(c, exe_m, stream, n, tier, seed, extra=None):
     if rc != 0:
         c.broken_correspondence(stream + ":harness-run", None, V.tail(out, 30))
         return st
-    for v in (st.get("impl_violations") or []):
+    for v in (st.get("impl_violations") or [])[:5]:
         # the implementation panicked inside the hook: a crash, whatever the model says
         c.failing_input("panic in the %s stream (recover() caught it)" % stream, v, replay_text(v))
     if exe_m is None:
@@ -69,13 +69,24 @@ def run(tier, seed):
     ok, log = V.regen(["yytables", "flagtable"])
     if not ok:
         c.notes.append("translator failed: " + V.tail(log, 10))
-    proved = c.prove(PROPS, deps=DEPS)
-    proved = c.prove(TIE) and proved
-    proved = c.prove("props/C08b.v") and proved      # pipeline corollaries combining C09/C03/C12 theorems (coq/integ)
+    # one make for everything (parallel), then the four statement files are re-checked concurrently with the
+    # streams: each c.prove then finds its dependencies up to date and only recompiles its (small) props file
+    ALLPROPS = [PROPS, TIE, "props/C08b.v", "props/C08c.v"]
+    V.coq_make(DEPS + ["integ/CliTotalRun.v"] + ALLPROPS, timeout=3000)
+    import threading
+    pres = {}
+
+    def prove_job(f):
+        pres[f] = c.prove(f)
+    pths = [threading.Thread(target=prove_job, args=(f,)) for f in ALLPROPS]
+    for t in pths:
+        t.start()
     exe_h, hlog = V.build_harness("c08")
     st_all = {}
     if exe_h is None:
         c.broken_correspondence("harness-build", None, V.tail(hlog, 40))
+        for t in pths:
+            t.join()
         return c.finish("none (harness did not build)")
     exe_m, mlog = V.build_model("c08", "extract/ExtractC08.v", "c08model", deps=DEPS)
     if exe_m is None:
@@ -92,7 +103,6 @@ def run(tier, seed):
     n = int(os.environ.get("C08_N", n))
     # the crash stream (all cores, but mostly waiting on deadlines/watchdogs at its tail) runs while the three
     # correspondence streams are produced and judged
-    import threading
     box = {}
 
     def crash_job():
@@ -103,14 +113,22 @@ def run(tier, seed):
     st_all["lr"] = model_stream(c, exe_m, "lr", 6000 if q else 100000, tier, seed)
     st_all["flags"] = model_stream(c, exe_m, "flags", 5000 if q else 60000, tier, seed)
     st_all["preview"] = model_stream(c, exe_m, "preview", 4000 if q else 60000, tier, seed)
+    # the command's top level against integ/CliTotal.v (own extracted judge: it depends on the C15 model)
+    exe_c, clog = V.build_model("c08cmd", "extract/ExtractC08cmd.v", "c08cmdmodel", deps=["integ/CliTotalRun.v"])
+    if exe_c is None:
+        c.broken_correspondence("cmd:model-extraction", None, V.tail(clog, 30))
+    st_all["cmd"] = model_stream(c, exe_c, "cmd", 4000 if q else 60000, tier, seed)
     th.join()
+    for t in pths:
+        t.join()
+    proved = all(pres.get(f) for f in ALLPROPS)
     rc, out, cases, st = box.get("r") or (1, "crash stream did not run", None, {})
     st_all["crash"] = {k: v for k, v in st.items() if k not in ("failures",)}
     if rc != 0:
         c.broken_correspondence("crash:harness-run", None, V.tail(out, 40))
     else:
         fails = {f["case"]: f for f in (st.get("failures") or [])}
-        for v in (st.get("impl_violations") or []):
+        for v in (st.get("impl_violations") or [])[:8]:
             f = fails.get(v, {})
             c.failing_input("crash search: %s in stream %s" % (f.get("class", "failure"), f.get("stream", "?")), v,
                             "%s\n%s\noriginal (before minimisation): %s" % (f.get("readable", ""), f.get("detail", ""), f.get("original", "")))
